@@ -26,7 +26,7 @@ for pid in ids:
     ))
 man = dict(
     version=1,
-    setup_cmd="/venv/bin/python tools/translate.py --repo /repo --out lean/Cpl/Gen && /venv/bin/python tools/py2lean.py --repo /repo --out lean/Cpl/Gen && /venv/bin/python tools/py2lean_typed.py --repo /repo --out lean/Cpl/Gen && /venv/bin/python tools/py2lean_frag.py --repo /repo --out lean/Cpl/Gen && cd lean && lake build Cpl driver && (lake build CplExtra || echo 'source ties not re-established on this tree (reported by the checks)')",
+    setup_cmd="/venv/bin/python tools/translate.py --repo /repo --out lean/Cpl/Gen && /venv/bin/python tools/py2lean.py --repo /repo --out lean/Cpl/Gen && /venv/bin/python tools/py2lean_typed.py --repo /repo --out lean/Cpl/Gen && /venv/bin/python tools/py2lean_frag.py --repo /repo --out lean/Cpl/Gen && /venv/bin/python tools/py2lean_comp.py --repo /repo --out lean/Cpl/Gen && cd lean && lake build Cpl driver && (lake build CplExtra || echo 'source ties not re-established on this tree (reported by the checks)')",
     hooks=dict(guard="CELLPYLIB_VERIF",
                enable="none needed: every observation goes through rule / predicate callables and return values; library randomness is substituted inside the harness process",
                baseline_off_cmd="cd /repo && /venv/bin/python -m pytest -ra -q -p no:cacheprovider --timeout=900 --continue-on-collection-errors",
